@@ -488,8 +488,8 @@ class Element:
             else:
                 arrays = self._data[chan]["array"]
                 for name, arr in arrays.items():
-                    pre_wait = np.zeros(int(delay * SR))
-                    post_wait = np.zeros(int((maxdelay - delay) * SR))
+                    pre_wait = np.zeros(int(round(delay * SR)))
+                    post_wait = np.zeros(int(round((maxdelay - delay) * SR)))
                     arrays[name] = np.concatenate((pre_wait, arr, post_wait))
 
     def copy(self):
